@@ -57,7 +57,20 @@ CLAUSES = {
             "commit_stress"],
     "C11": ["dissipation_nonneg", "isochoric_v", "relax_monotone", "limit_fast", "limit_slow"],
 }
-ALL_CLAUSES = [c for k in ("C08", "C09", "C11") for c in CLAUSES[k]]
+CLAUSES["C10"] = ["stress_matches_energy", "tangent_matches_energy"]
+ALL_CLAUSES = [c for k in ("C08", "C09", "C11", "C10") for c in CLAUSES[k]]
+
+# C10: difference quotients of the energy density itself (6th-order central stencils, 6 step sizes h0/2^j)
+FD_C1 = [-1.0 / 60, 3.0 / 20, -3.0 / 4, 0.0, 3.0 / 4, -3.0 / 20, 1.0 / 60]
+FD_C2 = [1.0 / 90, -3.0 / 20, 3.0 / 2, -49.0 / 18, 3.0 / 2, -3.0 / 20, 1.0 / 90]
+FD_NH = 14
+DERIV = dict(rel=1e-6,        # |AD - FD| <= rel*scale + est_factor*(FD error estimate) + abs floor
+             est_factor=20.0,  # FD error estimate = |D(h_j) - D(h_j/2)| at the best pair of step sizes
+             trust=1e-4,      # the quotient is judged only where its own estimate <= trust*scale (+ floor)
+             floor=1e-10,     # abs floor: floor*Kref*|V| (stress) and floor*Kref*|V|^2 (tangent)
+             h0=0.02, hmin=0.05, ndir=4,
+             round=8.0)       # rounding of the quotient itself: round*eps*Wabs/h (stress), 4*round*eps*Wabs/h^2 (tangent);
+                              # Wabs = Kref (finite deformation: O(1) terms cancel in the energy) or Kref*|H|^2
 
 
 # ----------------------------------------------------------------------------- model catalogue
@@ -432,7 +445,32 @@ class Runner:
                 out["q"] = qoi(H, s, dt)
             return out
         self._obs = obs
-        if mode == "jit":
+
+        def deriv(p, H, s, dt, V, hs):
+            """stress, tangent action on each direction, and the energy (and the eqps increment of the model's own
+            state update: which side of the yield switch) at every stencil point H + c*h_j*V_k"""
+            mdl = build(p)
+            if sig == "pf":
+                z3 = jnp.zeros(3)
+                energy = lambda h: mdl.compute_energy_density(h, 0.0, z3, s, dt)
+                snew = lambda h: mdl.compute_state_new(h, 0.0, z3, s, dt)
+            else:
+                energy = lambda h: mdl.compute_energy_density(h, s, dt)
+                snew = lambda h: mdl.compute_state_new(h, s, dt)
+            g = jax.grad(energy)
+            P = g(H)
+            T = jax.vmap(lambda v: jax.jvp(g, (H,), (v,))[1])(V)
+            c = jnp.arange(-3.0, 4.0)
+            pts = H[None, None, None] + (hs[None, :, None] * c[None, None, :])[..., None, None] * V[:, None, None]
+            flat = pts.reshape(-1, 3, 3)
+            W = jax.vmap(energy)(flat).reshape(pts.shape[:3])
+            out = dict(P=P, T=T, Wst=W, W0=energy(H))
+            if kind == "plastic":
+                de = jax.vmap(lambda h: snew(h)[0] - s[0])(flat).reshape(pts.shape[:3])
+                out["de"] = de
+            return out
+        self._dfn = jax.jit(deriv) if mode == "deriv" else None
+        if mode in ("jit", "deriv"):
             self._fn = jax.jit(obs)
         elif mode == "vmapBatch":
             self._fn = jax.jit(jax.vmap(obs, (None, 0, 0, None)))
@@ -474,7 +512,7 @@ class Runner:
         self.calls += 1
         if self.mode == "single":
             return self._single(p, H, s, dt)
-        if self.mode == "jit":
+        if self.mode in ("jit", "deriv"):
             out = self._fn(onp.asarray(p, dtype=float), onp.asarray(H, dtype=float), onp.asarray(s, dtype=float), float(dt))
             return {k: onp.asarray(v) for k, v in out.items()}
         B = ALPHA["batch"]
@@ -522,7 +560,9 @@ class Point:
         self.gap = 1.0
         self.flat = False
         self.stats = dict(yield_steps=0, elastic_steps=0, at_yield=0, holds_decreasing=0, limits_nontrivial=0,
-                          rot_nontrivial=0, max_rel={})
+                          rot_nontrivial=0, max_rel={}, deriv_stress_judged=0, deriv_tangent_judged=0,
+                          deriv_dirs_skipped_untrusted=0, deriv_dirs_skipped_straddle=0, deriv_plastic_branch_judged=0,
+                          deriv_nonfinite_energy=0)
 
     # -- helpers
     def _track(self, key, val):
@@ -805,7 +845,7 @@ class Point:
     def step(self, i, op):
         a = op["a"]
         o = dict(W=self.wid, S=self.sid, symS=True, eIn=1, eOut=1, isoch=True, ye="inside", mini=True, same=True,
-                 Wneq=self.nid, diss="zero", lim="EQ")
+                 Wneq=self.nid, diss="zero", lim="EQ", dS="NA", dT="NA")
         kind = self.kind
         if a == "Reset":
             self.F, self.sc, self.sp, self.dF_last = I3.copy(), self.s0.copy(), None, None
@@ -862,12 +902,102 @@ class Point:
         else:
             raise ValueError(a)
         self.gap = self._gap()
+        if self.r.mode == "deriv" and a not in ("ReUpdate", "LimitFast", "LimitSlow"):
+            self._deriv_obs(o)
         if kind == "plastic" and a not in ("Update", "ReUpdate"):
             self.flat = self._flat(self.sc)
         if kind == "plastic" and a not in ("Update", "ReUpdate"):
             self.eq.append((i, "eOut", float(self.sc[0])))
             self.eq.append((i, "eIn", float(self.sc[0])))
         return o
+
+    def _deriv_obs(self, o):
+        """C10: stress and tangent action (library differentiation rules) against difference quotients of the energy
+        density itself at (current F, committed state, current dt), along ndir directions (the last one is the
+        normalised sum of the first two: its second derivative contains their mixed term)."""
+        D = DERIV
+        H = self.F - I3
+        nrng = onp.random.RandomState(self.rng.randrange(1 << 30))
+        V = nrng.normal(size=(D["ndir"], 3, 3))
+        if self.rng.random() < 0.3:                      # in-plane block form (plane-strain kinematics)
+            V[0, 2, :] = 0.0
+            V[0, :, 2] = 0.0
+        if self.rng.random() < 0.3:
+            V[1] = 0.5 * (V[1] + V[1].T)                 # a symmetric direction
+        V[-1] = V[0] / np_norm(V[0]) + V[1] / np_norm(V[1])
+        V = V / onp.sqrt((V * V).sum(axis=(1, 2)))[:, None, None]
+        h0 = D["h0"] * max(np_norm(H), D["hmin"])
+        hs = h0 / 2.0 ** onp.arange(FD_NH)
+        r = self.r._dfn(onp.asarray(self.p, dtype=float), onp.asarray(H, dtype=float), onp.asarray(self.sc, dtype=float),
+                        float(self.dt), V, hs)
+        self.r.calls += 1
+        P, T, Wst = (onp.asarray(r[k], dtype=float) for k in ("P", "T", "Wst"))
+        if not math.isfinite(float(r["W0"])):
+            self.stats["deriv_nonfinite_energy"] += 1
+            return
+        Kref = self.meta["Kref"]
+        ok = onp.isfinite(Wst).all(axis=2)                                   # [dir, step size]
+        plastic_here = False
+        if "de" in r:
+            de = onp.asarray(r["de"], dtype=float)
+            pos = de > 0
+            same = pos.all(axis=2) | (~pos).all(axis=2)
+            self.stats["deriv_dirs_skipped_straddle"] += int((ok & ~same).all(axis=1).sum())
+            ok &= same
+            plastic_here = bool(pos[:, :, 3].all())
+        c1, c2 = onp.array(FD_C1), onp.array(FD_C2)
+        D1 = (Wst * c1).sum(axis=2) / hs[None, :]
+        D2 = (Wst * c2).sum(axis=2) / (hs * hs)[None, :]
+        eps = 2.0 ** -52
+        wabs = Kref * (1.0 if self.m["finiteDef"] else (np_norm(H) + 3 * hs) ** 2)
+        R1 = D["round"] * eps * wabs / hs
+        R2 = 4 * D["round"] * eps * wabs / (hs * hs)
+        codes = {}
+        for name, Dq, Rq, ad, scale, floor in (
+                ("dS", D1, R1, (P[None] * V).sum(axis=(1, 2)), onp.full(len(V), np_norm(P)), D["floor"] * Kref),
+                ("dT", D2, R2, (T * V).sum(axis=(1, 2)), onp.sqrt((T * T).sum(axis=(1, 2))), D["floor"] * Kref)):
+            worst, judged = 0.0, 0
+            bad = False
+            for k in range(len(V)):
+                # three consecutive step sizes in the asymptotic regime: halving h shrinks the change of the quotient at
+                # least four-fold (6th order: 64-fold) up to rounding -- a non-smooth energy or too large a step fails this
+                def est_of(j):
+                    return abs(Dq[k, j] - Dq[k, j + 1]) + Rq[j + 1]
+                js = [j for j in range(FD_NH - 2) if ok[k, j] and ok[k, j + 1] and ok[k, j + 2]
+                      and abs(Dq[k, j + 1] - Dq[k, j + 2]) <= 0.25 * abs(Dq[k, j] - Dq[k, j + 1]) + Rq[j + 2]
+                      and est_of(j + 1) <= D["trust"] * scale[k] + floor]
+                if not js:
+                    self.stats["deriv_dirs_skipped_untrusted"] += 1
+                    continue
+                # best estimate first; a candidate must be confirmed by every finer quotient (the energy of a plastic state
+                # varies on the scale of the yield strain: plateaus of the quotient at coarse steps are spurious)
+                pick = None
+                for jc in sorted(js, key=lambda j: est_of(j + 1)):
+                    e = est_of(jc + 1)
+                    if all(abs(Dq[k, jf] - Dq[k, jc + 2]) <= D["est_factor"] * e + 4 * Rq[jf]
+                           for jf in range(jc + 3, FD_NH) if ok[k, jf]):
+                        pick = jc + 1
+                        break
+                if pick is None:
+                    self.stats["deriv_dirs_skipped_untrusted"] += 1
+                    continue
+                j = pick
+                est = est_of(j)
+                judged += 1
+                allow = D["rel"] * scale[k] + D["est_factor"] * est + floor
+                d = abs(ad[k] - Dq[k, j + 1])
+                if not (math.isfinite(ad[k]) and d <= allow):
+                    bad = True
+                elif allow > 0:
+                    worst = max(worst, d / allow)
+            if judged:
+                codes[name] = "NE" if bad else "EQ"
+                self.stats["deriv_stress_judged" if name == "dS" else "deriv_tangent_judged"] += 1
+                if not bad:
+                    self._track("deriv_" + name, worst)
+        o.update(codes)
+        if codes and plastic_here:
+            self.stats["deriv_plastic_branch_judged"] += 1
 
     def _flat(self, state):
         """Classification feature only: the flow stress does not rise over the elastic-predictor bracket of the
@@ -1219,7 +1349,7 @@ def run_check(pid, tier, replay, plan, kinds, nsim, rule):
     common.setup_paths()
     rep = common.Reporter(pid, tier)
     rep.assumptions = assumptions(pid)
-    rng = random.Random(common.seed() * 7919 + {"C08": 8, "C09": 9, "C11": 11}[pid])
+    rng = random.Random(common.seed() * 7919 + {"C08": 8, "C09": 9, "C11": 11, "C10": 10}[pid])
     t0 = time.time()
     if replay:
         case = json.load(open(replay))["case"]
